@@ -128,7 +128,9 @@ def merge(results):
         for k, v in r["known_seen"].items():
             tot["known_seen"].setdefault(k, v)
         for k, v in r.get("extra", {}).items():
-            if isinstance(v, (int, float)) and not isinstance(v, bool):
+            if k.startswith("max_") and isinstance(v, (int, float)):
+                tot["extra"][k] = max(tot["extra"].get(k, v), v)
+            elif isinstance(v, (int, float)) and not isinstance(v, bool):
                 tot["extra"][k] = tot["extra"].get(k, 0) + v
             else:
                 tot["extra"].setdefault(k, v)
